@@ -1,28 +1,34 @@
 (* C16 — only the right password reads an encrypted entry, and it always does.
    Model: coq/Model/Kdf.v (get_writer_context / verify_password / decrypt_reader).  The KDF, its
    parameter rules, the PHC string codec and the decrypting pipeline are universally quantified;
-   the two hypotheses are the PHC round trip on the records a writer prints and that the reader
-   dispatches on the algorithm names the writer records.
+   the two hypotheses are the PHC round trip on the records a writer prints (a salt of SALT_LEN
+   bytes, parameters its parameter rules accept: the PHC format has length limits) and that the
+   reader dispatches on the algorithm names the writer records; both are theorems for the
+   executable codec (Props/C16_phc.v).
    Outside: the negative half holds relative to two named premises (no KDF collision on the
    password pair — PBKDF2-HMAC does collide on pw / pw+NUL, finding pbkdf2-trailing-nul — and the
    cipher distinguishing the two keys on the ciphertext). *)
 From PNA Require Import Base Codec Kdf KdfFacts.
 
 Theorem C16_right_password_reads :
-  forall (key : Type) (kdf : bytes -> option N -> list (bytes * N) -> bytes -> bytes -> key)
-    (kdf_valid : bytes -> option N -> list (bytes * N) -> bytes -> bool)
+  forall (key : Type) (kdf : bytes -> option N -> list (bytes * bytes) -> bytes -> bytes -> key)
+    (kdf_valid : bytes -> option N -> list (bytes * bytes) -> bytes -> option bytes -> bool)
     (alg_supported : bytes -> bool) (phc_print : phc -> bytes) (phc_parse : bytes -> option phc),
-  (forall (h : hash_alg) (salt : bytes), phc_parse (phc_print (writer_record h salt None)) = Some (writer_record h salt None)) ->
+  (forall (h : hash_alg) (salt : bytes),
+   length salt = SALT_LEN -> kdf_valid (alg_name h) (alg_version h) (alg_params h) salt None = true ->
+   phc_parse (phc_print (writer_record h salt None)) = Some (writer_record h salt None)) ->
   (forall h : hash_alg, alg_supported (alg_name h) = true) ->
   forall (m : cipher_mode) (h : hash_alg) (pw tape : bytes) (c : ctx key) (t' : bytes),
   writer_context key kdf kdf_valid phc_print m h pw tape = Ok (c, t') ->
   reader_key key kdf kdf_valid alg_supported phc_parse (ctx_phsf c) pw = Ok (ctx_key c).
 Proof. exact right_password_reads. Qed.
 Check C16_right_password_reads :
-  forall (key : Type) (kdf : bytes -> option N -> list (bytes * N) -> bytes -> bytes -> key)
-    (kdf_valid : bytes -> option N -> list (bytes * N) -> bytes -> bool)
+  forall (key : Type) (kdf : bytes -> option N -> list (bytes * bytes) -> bytes -> bytes -> key)
+    (kdf_valid : bytes -> option N -> list (bytes * bytes) -> bytes -> option bytes -> bool)
     (alg_supported : bytes -> bool) (phc_print : phc -> bytes) (phc_parse : bytes -> option phc),
-  (forall (h : hash_alg) (salt : bytes), phc_parse (phc_print (writer_record h salt None)) = Some (writer_record h salt None)) ->
+  (forall (h : hash_alg) (salt : bytes),
+   length salt = SALT_LEN -> kdf_valid (alg_name h) (alg_version h) (alg_params h) salt None = true ->
+   phc_parse (phc_print (writer_record h salt None)) = Some (writer_record h salt None)) ->
   (forall h : hash_alg, alg_supported (alg_name h) = true) ->
   forall (m : cipher_mode) (h : hash_alg) (pw tape : bytes) (c : ctx key) (t' : bytes),
   writer_context key kdf kdf_valid phc_print m h pw tape = Ok (c, t') ->
@@ -30,11 +36,13 @@ Check C16_right_password_reads :
 Print Assumptions C16_right_password_reads.
 
 Theorem C16_right_password_decodes :
-  forall (key : Type) (kdf : bytes -> option N -> list (bytes * N) -> bytes -> bytes -> key)
-    (kdf_valid : bytes -> option N -> list (bytes * N) -> bytes -> bool)
+  forall (key : Type) (kdf : bytes -> option N -> list (bytes * bytes) -> bytes -> bytes -> key)
+    (kdf_valid : bytes -> option N -> list (bytes * bytes) -> bytes -> option bytes -> bool)
     (alg_supported : bytes -> bool) (phc_print : phc -> bytes) (phc_parse : bytes -> option phc)
     (decrypt : key -> bytes -> bytes -> res bytes),
-  (forall (h : hash_alg) (salt : bytes), phc_parse (phc_print (writer_record h salt None)) = Some (writer_record h salt None)) ->
+  (forall (h : hash_alg) (salt : bytes),
+   length salt = SALT_LEN -> kdf_valid (alg_name h) (alg_version h) (alg_params h) salt None = true ->
+   phc_parse (phc_print (writer_record h salt None)) = Some (writer_record h salt None)) ->
   (forall h : hash_alg, alg_supported (alg_name h) = true) ->
   forall (enc : encryption) (m : cipher_mode) (h : hash_alg) (pw tape : bytes) (c : ctx key)
     (t' : bytes) (ct : list byte) (content : bytes),
@@ -45,11 +53,13 @@ Theorem C16_right_password_decodes :
   decode key kdf kdf_valid alg_supported phc_parse decrypt enc m (Some (ctx_phsf c)) (Some pw) (ctx_iv c ++ ct) = Ok content.
 Proof. exact right_password_decodes. Qed.
 Check C16_right_password_decodes :
-  forall (key : Type) (kdf : bytes -> option N -> list (bytes * N) -> bytes -> bytes -> key)
-    (kdf_valid : bytes -> option N -> list (bytes * N) -> bytes -> bool)
+  forall (key : Type) (kdf : bytes -> option N -> list (bytes * bytes) -> bytes -> bytes -> key)
+    (kdf_valid : bytes -> option N -> list (bytes * bytes) -> bytes -> option bytes -> bool)
     (alg_supported : bytes -> bool) (phc_print : phc -> bytes) (phc_parse : bytes -> option phc)
     (decrypt : key -> bytes -> bytes -> res bytes),
-  (forall (h : hash_alg) (salt : bytes), phc_parse (phc_print (writer_record h salt None)) = Some (writer_record h salt None)) ->
+  (forall (h : hash_alg) (salt : bytes),
+   length salt = SALT_LEN -> kdf_valid (alg_name h) (alg_version h) (alg_params h) salt None = true ->
+   phc_parse (phc_print (writer_record h salt None)) = Some (writer_record h salt None)) ->
   (forall h : hash_alg, alg_supported (alg_name h) = true) ->
   forall (enc : encryption) (m : cipher_mode) (h : hash_alg) (pw tape : bytes) (c : ctx key)
     (t' : bytes) (ct : list byte) (content : bytes),
@@ -61,16 +71,16 @@ Check C16_right_password_decodes :
 Print Assumptions C16_right_password_decodes.
 
 Theorem C16_no_password_fails :
-  forall (key : Type) (kdf : bytes -> option N -> list (bytes * N) -> bytes -> bytes -> key)
-    (kdf_valid : bytes -> option N -> list (bytes * N) -> bytes -> bool)
+  forall (key : Type) (kdf : bytes -> option N -> list (bytes * bytes) -> bytes -> bytes -> key)
+    (kdf_valid : bytes -> option N -> list (bytes * bytes) -> bytes -> option bytes -> bool)
     (alg_supported : bytes -> bool) (phc_parse : bytes -> option phc)
     (decrypt : key -> bytes -> bytes -> res bytes) (enc : encryption) (m : cipher_mode) (s stream : bytes),
   encrypted_b enc = true ->
   decode key kdf kdf_valid alg_supported phc_parse decrypt enc m (Some s) None stream = Err InvalidInput.
 Proof. exact no_password_decode_fails. Qed.
 Check C16_no_password_fails :
-  forall (key : Type) (kdf : bytes -> option N -> list (bytes * N) -> bytes -> bytes -> key)
-    (kdf_valid : bytes -> option N -> list (bytes * N) -> bytes -> bool)
+  forall (key : Type) (kdf : bytes -> option N -> list (bytes * bytes) -> bytes -> bytes -> key)
+    (kdf_valid : bytes -> option N -> list (bytes * bytes) -> bytes -> option bytes -> bool)
     (alg_supported : bytes -> bool) (phc_parse : bytes -> option phc)
     (decrypt : key -> bytes -> bytes -> res bytes) (enc : encryption) (m : cipher_mode) (s stream : bytes),
   encrypted_b enc = true ->
@@ -78,16 +88,16 @@ Check C16_no_password_fails :
 Print Assumptions C16_no_password_fails.
 
 Theorem C16_no_phsf_fails :
-  forall (key : Type) (kdf : bytes -> option N -> list (bytes * N) -> bytes -> bytes -> key)
-    (kdf_valid : bytes -> option N -> list (bytes * N) -> bytes -> bool)
+  forall (key : Type) (kdf : bytes -> option N -> list (bytes * bytes) -> bytes -> bytes -> key)
+    (kdf_valid : bytes -> option N -> list (bytes * bytes) -> bytes -> option bytes -> bool)
     (alg_supported : bytes -> bool) (phc_parse : bytes -> option phc)
     (decrypt : key -> bytes -> bytes -> res bytes) (enc : encryption) (m : cipher_mode) (pw : option bytes) (stream : bytes),
   encrypted_b enc = true ->
   decode key kdf kdf_valid alg_supported phc_parse decrypt enc m None pw stream = Err InvalidData.
 Proof. exact no_phsf_decode_fails. Qed.
 Check C16_no_phsf_fails :
-  forall (key : Type) (kdf : bytes -> option N -> list (bytes * N) -> bytes -> bytes -> key)
-    (kdf_valid : bytes -> option N -> list (bytes * N) -> bytes -> bool)
+  forall (key : Type) (kdf : bytes -> option N -> list (bytes * bytes) -> bytes -> bytes -> key)
+    (kdf_valid : bytes -> option N -> list (bytes * bytes) -> bytes -> option bytes -> bool)
     (alg_supported : bytes -> bool) (phc_parse : bytes -> option phc)
     (decrypt : key -> bytes -> bytes -> res bytes) (enc : encryption) (m : cipher_mode) (pw : option bytes) (stream : bytes),
   encrypted_b enc = true ->
@@ -95,8 +105,8 @@ Check C16_no_phsf_fails :
 Print Assumptions C16_no_phsf_fails.
 
 Theorem C16_password_used_whole :
-  forall (key : Type) (kdf : bytes -> option N -> list (bytes * N) -> bytes -> bytes -> key)
-    (kdf_valid : bytes -> option N -> list (bytes * N) -> bytes -> bool)
+  forall (key : Type) (kdf : bytes -> option N -> list (bytes * bytes) -> bytes -> bytes -> key)
+    (kdf_valid : bytes -> option N -> list (bytes * bytes) -> bytes -> option bytes -> bool)
     (alg_supported : bytes -> bool) (phc_parse : bytes -> option phc) (phsf pw : bytes) (k : key),
   reader_key key kdf kdf_valid alg_supported phc_parse phsf pw = Ok k ->
   exists (p : phc) (salt : bytes),
@@ -106,8 +116,8 @@ Theorem C16_password_used_whole :
                          Ok (kdf (ph_alg p) (ph_version p) (ph_params p) salt pw')).
 Proof. exact password_used_whole. Qed.
 Check C16_password_used_whole :
-  forall (key : Type) (kdf : bytes -> option N -> list (bytes * N) -> bytes -> bytes -> key)
-    (kdf_valid : bytes -> option N -> list (bytes * N) -> bytes -> bool)
+  forall (key : Type) (kdf : bytes -> option N -> list (bytes * bytes) -> bytes -> bytes -> key)
+    (kdf_valid : bytes -> option N -> list (bytes * bytes) -> bytes -> option bytes -> bool)
     (alg_supported : bytes -> bool) (phc_parse : bytes -> option phc) (phsf pw : bytes) (k : key),
   reader_key key kdf kdf_valid alg_supported phc_parse phsf pw = Ok k ->
   exists (p : phc) (salt : bytes),
@@ -118,11 +128,13 @@ Check C16_password_used_whole :
 Print Assumptions C16_password_used_whole.
 
 Theorem C16_wrong_password_partial :
-  forall (key : Type) (kdf : bytes -> option N -> list (bytes * N) -> bytes -> bytes -> key)
-    (kdf_valid : bytes -> option N -> list (bytes * N) -> bytes -> bool)
+  forall (key : Type) (kdf : bytes -> option N -> list (bytes * bytes) -> bytes -> bytes -> key)
+    (kdf_valid : bytes -> option N -> list (bytes * bytes) -> bytes -> option bytes -> bool)
     (alg_supported : bytes -> bool) (phc_print : phc -> bytes) (phc_parse : bytes -> option phc)
     (decrypt : key -> bytes -> bytes -> res bytes),
-  (forall (h : hash_alg) (salt : bytes), phc_parse (phc_print (writer_record h salt None)) = Some (writer_record h salt None)) ->
+  (forall (h : hash_alg) (salt : bytes),
+   length salt = SALT_LEN -> kdf_valid (alg_name h) (alg_version h) (alg_params h) salt None = true ->
+   phc_parse (phc_print (writer_record h salt None)) = Some (writer_record h salt None)) ->
   (forall h : hash_alg, alg_supported (alg_name h) = true) ->
   forall (enc : encryption) (m : cipher_mode) (h : hash_alg) (pw pw' tape : bytes) (c : ctx key) (t' ct content : bytes),
   writer_context key kdf kdf_valid phc_print m h pw tape = Ok (c, t') ->
@@ -133,11 +145,13 @@ Theorem C16_wrong_password_partial :
   decode key kdf kdf_valid alg_supported phc_parse decrypt enc m (Some (ctx_phsf c)) (Some pw') (ctx_iv c ++ ct) <> Ok content.
 Proof. exact wrong_password_partial. Qed.
 Check C16_wrong_password_partial :
-  forall (key : Type) (kdf : bytes -> option N -> list (bytes * N) -> bytes -> bytes -> key)
-    (kdf_valid : bytes -> option N -> list (bytes * N) -> bytes -> bool)
+  forall (key : Type) (kdf : bytes -> option N -> list (bytes * bytes) -> bytes -> bytes -> key)
+    (kdf_valid : bytes -> option N -> list (bytes * bytes) -> bytes -> option bytes -> bool)
     (alg_supported : bytes -> bool) (phc_print : phc -> bytes) (phc_parse : bytes -> option phc)
     (decrypt : key -> bytes -> bytes -> res bytes),
-  (forall (h : hash_alg) (salt : bytes), phc_parse (phc_print (writer_record h salt None)) = Some (writer_record h salt None)) ->
+  (forall (h : hash_alg) (salt : bytes),
+   length salt = SALT_LEN -> kdf_valid (alg_name h) (alg_version h) (alg_params h) salt None = true ->
+   phc_parse (phc_print (writer_record h salt None)) = Some (writer_record h salt None)) ->
   (forall h : hash_alg, alg_supported (alg_name h) = true) ->
   forall (enc : encryption) (m : cipher_mode) (h : hash_alg) (pw pw' tape : bytes) (c : ctx key) (t' ct content : bytes),
   writer_context key kdf kdf_valid phc_print m h pw tape = Ok (c, t') ->
